@@ -153,7 +153,7 @@ func checkC07(c *hx.Checker) {
 					add("Squeeze", nil, []*ref.T{data, ref.I64Vec(ax...)}, nil, bad, rt, nil, true, fmt.Sprint(ax), "extreme-int")
 					add("Unsqueeze", nil, []*ref.T{data, ref.I64Vec(ax...)}, nil, bad, rt, nil, true, fmt.Sprint(ax), "extreme-int")
 				}
-				for _, t := range [][]int64{{e}, {e, -1}, {-1, e}, {2, e}, {e, e}, {e, 0}} {
+				for _, t := range [][]int64{{e}, {e, -1}, {-1, e}, {2, e}, {e, e}, {e, 0}, {-1, e, e}, {e, e, -1}, {e, -1, e}, {e, 4, -1}, {-1, 4, e}, {0, e, -1}} {
 					add("Reshape", nil, []*ref.T{data, ref.I64Vec(t...)}, nil, bad, rt, nil, true, fmt.Sprint(t), "extreme-int")
 				}
 			}
